@@ -1,5 +1,5 @@
 (* Entry point of the extracted executable for C10: decode a case, run the model. *)
-From CV Require Import Base.Bytes Lit.Defs Lit.Spec Lit.Gen_Platforms Lit.Platform.
+From CV Require Import Base.Bytes Lit.Defs Lit.Spec Lit.Gen_Platforms Lit.Platform Lit.TokenValue.
 Local Open Scope N_scope.
 
 Definition BAD : list str := [[66]].
@@ -67,7 +67,7 @@ Definition run (fields : list str) : list str :=
         (* "cchar" platform cpp literal -> value of the token | e *)
         match args with
         | [name; cpp; s] =>
-            match find_platform name Gen_platforms, char_literal_to_ll s, narrow_nbytes s with
+            match find_platform name Gen_platforms, char_literal_to_ll s, token_char_count s with
             | Some p, Some z, Some n => [dec_of_Z (char_token_value p (bool_of_str cpp) n z)]
             | Some p, Some z, None => [dec_of_Z z]
             | _, _, _ => [[101]]
